@@ -72,6 +72,14 @@ func genC15(t *rapid.T) *C15Case {
 			}
 		})
 	})
+	// several distinct duplicated option names in one declaration: which one the
+	// ErrDuplicatedFlag message names must not depend on chance
+	if len(d.Root.G.Groups) > 0 && rapid.IntRange(0, 24).Draw(t, "duplicatedNames") == 0 {
+		g0 := &d.Root.G.Groups[0]
+		for i, n := range []string{"dupa", "dupb", "dupc", "dupa", "dupc", "dupb"} {
+			g0.Options = append(g0.Options, Opt{ID: fmt.Sprintf("dup%d", i), Field: fmt.Sprintf("Dup%d", i), Kind: KString, Long: n})
+		}
+	}
 	c := &C15Case{D: d, Reps: 40}
 	// families of similar command names so that a typo can be equally close to several
 	if rapid.IntRange(0, 2).Draw(t, "similarNames") == 0 {
@@ -243,8 +251,8 @@ func c15Oracle(c *C15Case) string {
 		return ""
 	}
 	if _, bad := first["setup"]; bad {
-		st.Label("skip: setup error")
-		return ""
+		// the declaration is rejected: the error message is an output too
+		st.Label("declaration rejected at setup (message compared)")
 	}
 	for i := 1; i < reps; i++ {
 		w0, e0 := TermWidth()
